@@ -114,17 +114,18 @@ type parkedTask struct {
 }
 
 type World struct {
-	mu         sync.Mutex
-	db         *DB
-	eventCtr   uint64
-	parked     map[string]*parkedTask
-	yieldCount map[string]int
-	abandoned  []*parkedTask
-	shutdown   bool
-	scheduling bool
-	harness    error
-	epoch      int
-	deadEpochs map[int]bool
+	lenientReads bool // see unmodelled
+	mu           sync.Mutex
+	db           *DB
+	eventCtr     uint64
+	parked       map[string]*parkedTask
+	yieldCount   map[string]int
+	abandoned    []*parkedTask
+	shutdown     bool
+	scheduling   bool
+	harness      error
+	epoch        int
+	deadEpochs   map[int]bool
 
 	calls    map[int]func(context.Context, *conn) error
 	nextCall int
@@ -140,16 +141,16 @@ type World struct {
 	picks     map[string]int
 	deadlocks int
 	steps     int
-	simTime time.Duration
-	log     []string
-	probes  map[string]int
-	fired   map[FaultKind]int
+	simTime   time.Duration
+	log       []string
+	probes    map[string]int
+	fired     map[FaultKind]int
 
 	lastCommitTask string
 	trace          []string // compact (task, op, outcome) sequence for interleaving digests
 
 	// hooks set by the profile
-	onCrash func()
+	onCrash     func()
 	cancels     map[string]context.CancelFunc // op id -> cancel of its request context
 	deadCancels []context.CancelFunc
 	gone        map[string]chan struct{} // op id -> closed when the client of that request goes away
